@@ -262,6 +262,9 @@ func c16(args []string) {
 		j := jobs[i]
 		root := c.CaseDir()
 		defer c.Drop(root)
+		if j.cfg.Sched == "" && i%2 == 0 {
+			j.cfg.NoHooks = true // the plain library: hooks passive
+		}
 		res := execSpec(c, root, j.s, j.cfg, nil, false, 0)
 		ti := mon.Index(res.Trace)
 		switch j.kind {
